@@ -11,11 +11,12 @@ from .calls import CallMixin
 from .bcalls import BuiltinMixin
 from .stmts import StmtMixin
 from .extern import ExternMixin
+from .npstats import StepStatsMixin
 
 MAX_PATHS = 4000
 
 
-class Executor(ExternMixin, ExprMixin, CallMixin, BuiltinMixin, StmtMixin, Engine):
+class Executor(StepStatsMixin, ExternMixin, ExprMixin, CallMixin, BuiltinMixin, StmtMixin, Engine):
     in_body = False
 
     # ------------------------------------------------------------ generator under contract: yields
